@@ -2,8 +2,9 @@
    Model: Ext/RT.v - the arithmetic on an integer clock.  Not in the model: IEEE rounding of passed / rt_factor, the
    event loop's timer accuracy, per-simulator start-time skew; the run-level clause (completes without internal error)
    is checked on the real scheduler driven by a virtual clock (harness/props/c17.py). *)
-From Coq Require Import ZArith Bool.
-From MV Require Import Ext.RT Ext.RTP.
+From Coq Require Import ZArith Bool List.
+Import ListNotations.
+From MV Require Import Ext.RT Ext.RTP Time.Spec Sched.Timing Sched.GenView Gen.SchedulerFns Sched.SchedTie.
 Open Scope Z_scope.
 
 Theorem C17_step_never_begins_early : forall t passed r, 0 < r -> may_begin t passed r = true -> r * (t - 1) < passed.
@@ -32,3 +33,12 @@ Print Assumptions C17_set_event.
 (* known finding F18: on a real clock the step at time 0 is always late *)
 Theorem C17_time_zero_refuted : exists r passed, 0 < r /\ 0 < passed /\ rt_check (Some r) true passed 0 = TooSlowError.
 Proof. exact time_zero_always_too_slow_refuted. Qed.
+
+(* tie to the source: in real-time mode (rt = Some k, k = ceil(seconds passed / rt_factor) ticks) the progress rule
+   advance_progress as regenerated from mosaik/scheduler.py on every run is the smaller of the ordinary new progress and the
+   clock's tick: no simulator's progress - hence no step - runs ahead of the wall clock *)
+Theorem C17_generated_progress_is_capped_by_the_clock : forall st s i k, (1 <= depth st i)%nat ->
+  advance_progress (view st s i) (nexts (s i)) (cur (s i)) (Some k) (until st) (mkI 1 1 (repeat 0 (depth st i))) =
+  (let w := world_time st i k in if tlt w (new_progress st s i) then w else new_progress st s i).
+Proof. exact tie_advance_progress_rt. Qed.
+Print Assumptions C17_generated_progress_is_capped_by_the_clock.
